@@ -149,6 +149,31 @@ def scenario_registration(it, params):
     it.check(B(sorted(onames) == expected), "C06:every-model-has-an-observer",
              f"models without a mailbox observer: {sorted(set(expected) - set(onames))} (observers: {sorted(onames)})")
     it.check(B(len(spawned) == len(tree)), "C06:every-model-is-spawned", f"{len(spawned)} model tasks for {len(tree)} models")
+    # C11 (attribution): the ModelId captured by each model task indexes that model's own qualified name
+    names_v = init.fields[init.meta.index("model_names")].fields
+    for fut in spawned:
+        tok, mid = None, None
+
+        def walk(v, depth=0):
+            nonlocal tok, mid
+            if depth > 6:
+                return
+            if isinstance(v, Opaque) and v.tag == "ModelTok":
+                tok = v
+            elif isinstance(v, Agg):
+                if v.name == "ModelId" and mid is None:
+                    mid = v.fields[0]
+                for f in v.fields:
+                    walk(f, depth + 1)
+        walk(fut)
+        if tok is None or mid is None:
+            raise Unsupported(f"model task without model token / id: {fut!r}")
+        k = mid.concrete()
+        got = _s(names_v[k]) if k is not None and 0 <= k < len(names_v) else None
+        it.check(B(got == qual(tok.data["idx"])), "C11:model-id-names-its-model",
+                 f"failures of model {qual(tok.data['idx'])!r} would be attributed to {got!r}")
+        if got != qual(tok.data["idx"]):
+            it.env["witness"]["misattributed"] = tok.data["idx"]
     it.env["witness"]["missing"] = sorted(set(expected) - set(onames))
 
 
@@ -225,9 +250,10 @@ def _native(work, job, v, d):
 
     bad = []
     log = []
+    kind = "panic" if v["label"].startswith("C11:") else "deadlock"
     for i in (range(len(tree)) if targets is None else [t[0] for t in targets]):
         for threads in (1, 3):
-            lines = [f"node {j} {p} {nm if nm else '_'}" for j, (nm, p) in enumerate(tree)] + [f"deadlock {i}", f"threads {threads}"]
+            lines = [f"node {j} {p} {nm if nm else '_'}" for j, (nm, p) in enumerate(tree)] + [f"{kind} {i}", f"threads {threads}"]
             spath = os.path.join(d, f"script-{i}-{threads}.txt")
             open(spath, "w").write("\n".join(lines) + "\n")
             try:
@@ -237,8 +263,8 @@ def _native(work, job, v, d):
             except subprocess.TimeoutExpired:
                 out = "res Timeout"
             res = [l for l in out.splitlines() if l.startswith("res ")]
-            want = f"res Deadlock {qual(i)}=1"
-            log.append(f"deadlock in {qual(i)!r} on {threads} thread(s): expected `{want}`, got {res}")
+            want = f"res Deadlock {qual(i)}=1" if kind == "deadlock" else f"res Panic {qual(i)}"
+            log.append(f"{kind} in {qual(i)!r} on {threads} thread(s): expected `{want}`, got {res}")
             if res != [want]:
                 bad.append(i)
     open(os.path.join(d, "native_trace.txt"), "w").write("\n".join(log) + "\n")
